@@ -223,20 +223,26 @@ vars == <<w, ph, cur, step, ld, res, eff, rep>>
 Undecided == [k |-> "-", why |-> "-", conf |-> NoConf]
 NoRep     == [k |-> "-", n |-> [k \in ItemSecs |-> 0], fmt |-> "none", rx |-> FALSE]
 Worlds0 ==
-    LET yfile(f) == {FileRec(p, kd, pm, fo, s) :
+    LET vals     == YV \cup PV \cup LV \cup {"none", "one"}
+        yfile(f) == {FileRec(p, kd, pm, fo, s) :
                        p \in {"set"}, kd \in {"absent", "file"}, pm \in {"600", "644"}, fo \in {"empty", "garbage", "map"},
-                       s \in {t \in [Secs -> PV] : (\A a \in Secs \ {"patterns"} : t[a] \in YV) /\
+                       s \in {t \in [Secs -> vals] : (\A a \in AllowedIn(f) \ {"patterns"} : t[a] \in YV) /\
                                                     (\A b \in Secs \ (AllowedIn(f) \cup {"bogus"}) : t[b] = "none") /\
+                                                    ("patterns" \in AllowedIn(f) => t["patterns"] \in PV) /\
                                                     t["bogus"] \in {"none", "one"}}}
         lfile    == {FileRec(p, kd, pm, fo, s) :
                        p \in {"set"}, kd \in {"absent", "file"}, pm \in {"600", "644"}, fo \in {"empty", "wrongsec", "remove"},
-                       s \in {t \in [Secs -> LV] : t["components"] = "none" /\ t["bogus"] \in {"none", "one"}}}
-        canon(x) == IF x.kind = "absent" THEN x = Absent
-                    ELSE /\ (x.form \in {"map", "remove"} \/ x.s = NoSecs)
-                         /\ x.perm # "600" => \A k \in Secs : x.s[k] \in {"none", "one"} /\ (k = "bogus" => x.s[k] = "none")
+                       s \in {t \in [Secs -> vals] : (\A a \in AllowedIn("leg") : t[a] \in LV) /\
+                                                    t["components"] = "none" /\ t["bogus"] = "none"}}
+        (* other permissions only for the documents without sections and for one simple document *)
+        canon(f, x) == IF x.kind = "absent" THEN x = Absent
+                       ELSE /\ (x.form \in {"map", "remove"} \/ x.s = NoSecs)
+                            /\ x.perm # "600" => \A k \in Secs : x.s[k] = (IF x.form \in {"map", "remove"} /\ k \in AllowedIn(f)
+                                                                           THEN "one" ELSE "none")
     IN {[validate |-> v, obf |-> o, red |-> r, con |-> c, leg |-> l] :
-          v \in BOOLEAN, o \in {"off", "all"},
-          r \in {x \in yfile("red") : canon(x)}, c \in {x \in yfile("con") : canon(x)}, l \in {x \in lfile : canon(x)}}
+          v \in BOOLEAN, o \in {"all"},
+          r \in {x \in yfile("red") : canon("red", x)}, c \in {x \in yfile("con") : canon("con", x)},
+          l \in {x \in lfile : canon("leg", x)}}
 
 InitRest ==
     /\ ph = "file" /\ cur = 1 /\ step = "locate"
